@@ -32,6 +32,8 @@ for d in sorted(glob.glob(os.path.join(VERIF, "seeded", prefix + "*"))):
     print(name, {p: r["caught"] for p, r in res.items()}, flush=True)
     for f in glob.glob(os.path.join(VERIF, "replays", "*.json")):
         os.remove(f)
-subprocess.run(["cargo", "build", "--offline"], cwd=os.path.join(VERIF, "harness"), capture_output=True)
-subprocess.run(["cargo", "build", "--offline"], cwd=os.path.join(VERIF, "harness-ffi"), capture_output=True)
+subprocess.run(["cargo", "build", "--offline"], cwd=os.path.join(VERIF, "harness"), capture_output=True,
+               env=dict(os.environ, CARGO_TARGET_DIR=os.path.join(VERIF, ".cache", "target")))
+subprocess.run(["cargo", "build", "--offline"], cwd=os.path.join(VERIF, "harness-ffi"), capture_output=True,
+               env=dict(os.environ, CARGO_TARGET_DIR=os.path.join(VERIF, ".cache", "target-ffi")))
 json.dump(results, open(results_path, "w"), indent=1, sort_keys=True)
